@@ -44,3 +44,20 @@ def jbool (b : Bool) : Json := Json.bool b
 def obj (kvs : List (String × Json)) : Json := Json.mkObj kvs
 
 end Oracle
+
+namespace Oracle
+def hexDigit (n : Nat) : Char := if n < 10 then Char.ofNat (48 + n) else Char.ofNat (87 + n)
+def hexOfBytes (bs : List UInt8) : String :=
+  String.ofList (bs.flatMap (fun b => [hexDigit (b.toNat / 16), hexDigit (b.toNat % 16)]))
+def hexOfString (s : String) : String := hexOfBytes s.toUTF8.toList
+def unhexDigit (c : Char) : Nat :=
+  if '0' ≤ c && c ≤ '9' then c.toNat - 48 else if 'a' ≤ c && c ≤ 'f' then c.toNat - 87 else 0
+def bytesOfHex : List Char → List UInt8
+  | a :: b :: rest => UInt8.ofNat (unhexDigit a * 16 + unhexDigit b) :: bytesOfHex rest
+  | _ => []
+def pairList (j : Lean.Json) : R (List (String × String)) :=
+  listOf (fun p => do
+    let a ← p.getArr?
+    if a.size != 2 then throw "pair expected"
+    pure ((← a[0]!.getStr?), (← a[1]!.getStr?))) j
+end Oracle
